@@ -349,7 +349,15 @@ def scan_assumptions(text):
                     while j < len(lines) and (not lines[j].strip() or lines[j].strip().startswith("#[")):
                         j += 1
                     if j < len(lines):
-                        sig = lines[j].strip()
+                        # the whole assumed contract: signature + requires/ensures up to the body / terminator
+                        acc = []
+                        while j < len(lines):
+                            lj = lines[j].split("//")[0]
+                            acc.append(lj.strip())
+                            if "{" in lj or lj.strip().endswith(";"):
+                                break
+                            j += 1
+                        sig = " ".join(acc)
                 sig = re.sub(r"\s+", " ", sig)
                 sig = sig.split("{")[0].strip()
                 found.append("%s: %s" % (name, sig))
